@@ -15,20 +15,20 @@ func verifTwinRule(p string, maxList int) *NetworkRule {
 	r.permittedRequestTypes = RequestType(verifU32(p + ".ptypes"))
 	r.restrictedRequestTypes = RequestType(verifU32(p + ".rtypes"))
 	r.pattern = "||" + verifString(p+".pat", 1, "ab") + "^"
-	r.permittedDomains = verifSymLen(verifSymNames(p+".pd", ".com", maxList), p+".npd")
-	r.restrictedDomains = verifSymLen(verifSymNames(p+".rd", ".com", maxList), p+".nrd")
-	r.denyAllowDomains = verifSymLen(verifSymNames(p+".da", ".com", maxList), p+".nda")
-	r.permittedClientTags = verifSymLen(verifSymNames(p+".pt", "", maxList), p+".npt")
-	r.restrictedClientTags = verifSymLen(verifSymNames(p+".rt", "", maxList), p+".nrt")
+	r.permittedDomains = verifSymLen(verifSymNames(p+".pd", ".com", maxList, false), p+".npd")
+	r.restrictedDomains = verifSymLen(verifSymNames(p+".rd", ".com", maxList, false), p+".nrd")
+	r.denyAllowDomains = verifSymLen(verifSymNames(p+".da", ".com", maxList, false), p+".nda")
+	r.permittedClientTags = verifSymLen(verifSymNames(p+".pt", "", maxList, true), p+".npt")
+	r.restrictedClientTags = verifSymLen(verifSymNames(p+".rt", "", maxList, true), p+".nrt")
 	r.permittedDNSTypes = verifSymLen(verifSymRRs(p+".pq", maxList), p+".npq")
 	r.restrictedDNSTypes = verifSymLen(verifSymRRs(p+".rq", maxList), p+".nrq")
 	if verifBool(p + ".hasPermClients") {
-		c := &clients{hosts: verifSymLen(verifSymNames(p+".pc", "", maxList), p+".npc")}
+		c := &clients{hosts: verifSymLen(verifSymNames(p+".pc", "", maxList, true), p+".npc")}
 		verifAssume(len(c.hosts) > 0)
 		r.permittedClients = c
 	}
 	if verifBool(p + ".hasRestClients") {
-		c := &clients{hosts: verifSymLen(verifSymNames(p+".rc", "", maxList), p+".nrc")}
+		c := &clients{hosts: verifSymLen(verifSymNames(p+".rc", "", maxList, true), p+".nrc")}
 		verifAssume(len(c.hosts) > 0)
 		r.restrictedClients = c
 	}
@@ -40,14 +40,16 @@ func verifTwinRule(p string, maxList int) *NetworkRule {
 	return r
 }
 
-// verifSymNames: n names, each one symbolic letter followed by suffix; strictly
-// increasing so that the parser's sortedness invariants hold.
-func verifSymNames(name, suffix string, n int) []string {
+// verifSymNames: n names, each one symbolic letter followed by suffix.  The
+// parser sorts $ctag values and $client names (slices.Sort, duplicates kept), so
+// those lists are non-decreasing (sorted == true); $domain and $denyallow values
+// are stored in the order written, duplicates included, so those are arbitrary.
+func verifSymNames(name, suffix string, n int, sorted bool) []string {
 	out := make([]string, n)
 	for i := range out {
 		out[i] = verifString(vn(name, i, ""), 1, "abc") + suffix
-		if i > 0 {
-			verifAssume(out[i-1] < out[i])
+		if i > 0 && sorted {
+			verifAssume(out[i-1] <= out[i])
 		}
 	}
 	return out
